@@ -1267,7 +1267,7 @@ class Crate:
 
 
 class Facts:
-    def __init__(self, d):
+    def __init__(self, d, splice=True):
         self.dir = d
         self.lib = Crate(os.path.join(d, "xs-lib.json"), "xs")
         self.bin = Crate(os.path.join(d, "xs-bin.json"), "xsbin")
@@ -1276,7 +1276,8 @@ class Facts:
         self.bin.siblings = self.crates
         from . import inline
         self.inlined = []
-        self.inlined = inline.apply(self, _AnchorSet(), PINNED_NAMES)
+        if splice:
+            self.inlined = inline.apply(self, _AnchorSet(), PINNED_NAMES)
 
     def all_bodies(self):
         for c in self.crates:
